@@ -60,6 +60,9 @@ fn pino_sol_log_data(data: &[&[u8]]) {
 
     #[cfg(not(target_os = "solana"))]
     core::hint::black_box(data);
+
+    #[cfg(orca_so_whirlpools_verif)]
+    crate::verif_hooks::pino_log_data(data);
 }
 
 impl Event<'_> {
